@@ -33,6 +33,7 @@ def decorate(sc, prof):
     sc = decorate_wire(sc, prof, random.Random(h ^ 0x5A17E))
     sc = decorate_mw(sc, prof, random.Random(h ^ 0x3C0FFEE))
     sc = decorate_config(sc, prof, random.Random(h ^ 0xC0F16))
+    sc = decorate_reg(sc, prof, random.Random(h ^ 0x2E615))
     return sc
 
 
@@ -53,27 +54,33 @@ def decorate_config(sc, prof, rr):
         if rr.random() < prof.get("cfg_p", .6):
             sc["cli"], _ = add_harmless(sc["cli"], rr)
     elif sc["N"] is None and sc.get("wtt_us") is None and rr.random() < prof.get("api_p", .15):
-        A = sc["A"]
-        kw = dict(max_async_tasks=rr.choice([0, -1]) if A is None else A)
-        if sc["P"] or rr.random() < .5:
-            kw["max_prefetch"] = sc["P"]
-        if sc["ack_type"] is not None or rr.random() < .3:
-            kw["ack_time"] = sc["ack_type"]
-        if rr.random() < .65:
-            kw["sync_workers"] = rr.choice(POOL_SIZES)
-        elif rr.random() < .3:
-            kw["sync_workers"] = None
-        if rr.random() < .12:
-            kw["use_process_pool"] = True
-        elif rr.random() < .2:
-            kw["use_process_pool"] = False
-        for k in ("validate_params", "propagate_exceptions"):
-            if rr.random() < .2:
-                kw[k] = True
-        if rr.random() < .2:
-            kw["run_startup"] = False
+        kw = api_kwargs(sc, rr)
         sc["api"] = kw
     return sc
+
+
+def api_kwargs(sc, rr):
+    """keyword arguments for taskiq.api.run_receiver_task (its own parameter names) that describe the scenario's Receiver"""
+    A = sc["A"]
+    kw = dict(max_async_tasks=rr.choice([0, -1]) if A is None else A)
+    if sc["P"] or rr.random() < .5:
+        kw["max_prefetch"] = sc["P"]
+    if sc["ack_type"] is not None or rr.random() < .3:
+        kw["ack_time"] = sc["ack_type"]
+    if rr.random() < .65:
+        kw["sync_workers"] = rr.choice(POOL_SIZES)
+    elif rr.random() < .3:
+        kw["sync_workers"] = None
+    if rr.random() < .12:
+        kw["use_process_pool"] = True
+    elif rr.random() < .2:
+        kw["use_process_pool"] = False
+    for k in ("validate_params", "propagate_exceptions"):
+        if rr.random() < .2:
+            kw[k] = True
+    if rr.random() < .2:
+        kw["run_startup"] = False
+    return kw
 
 
 def decorate_flavour(sc, prof):
@@ -311,6 +318,137 @@ def decorate_mw(sc, prof, rr):
     return sc
 
 
+# --------------------------------------------------------------------------------------------- sixth stage: when and where tasks get registered
+REG_WHERE = ["shared", "shared", "shared", "shared", "decorator", "register_task", "other"]
+
+
+def decorate_reg(sc, prof, rr):
+    """prof: reg_p (default 0: opt-in).  Touches nothing but WHICH task a message names and WHEN / WHERE that task is registered;
+    schedule, durations, outcomes, wire decoration stay what they were.  Until now the two task functions were registered on the
+    worker's broker before the Receiver existed.  A real worker also finds tasks that are registered later (a plugin / lazily
+    imported module) and tasks registered through the process-wide shared broker:
+      sc["late"] = [dict(name, style, where, when, at_us)]
+        where  shared: @async_shared_broker.task (global registry) | decorator: @broker.task on the worker's broker |
+               register_task: broker.register_task(...) | other: @other_broker.task on ANOTHER broker object (its local registry: the
+               worker's broker does not know it - messages naming it are unknown-task messages and must be skipped)
+        when   pre: before the Receiver exists | post: after it exists, before anything is listened to | at: at the virtual instant
+               at_us while listen() runs (between messages; strictly before the arrival of the first message that names the task)
+      sc["shared_default"] = before | after | None: async_shared_broker.default_broker(worker's broker) before the registrations,
+               after the Receiver exists, or never
+      m["task"] = name: the message names that task (same function shape as the built-in one of its style).
+    A message naming a task that is registered - anywhere AsyncBroker.find_task on the worker's broker looks: its own registry, then
+    the global one - strictly before the message arrives is a valid known-task message."""
+    if rr.random() >= prof.get("reg_p", 0):
+        return sc
+    msgs = sc["msgs"]
+    late = []
+    for t in range(rr.choice([1, 1, 2, 3])):
+        where = rr.choice(REG_WHERE)
+        kind = "unk" if where == "other" else "ok"
+        cand = [i for i, m in enumerate(msgs) if m["kind"] == kind and not m.get("probe") and "task" not in m]
+        if not cand:
+            continue
+        # the first message that names the task: rather a later one, so that the worker has handled something before
+        i0 = rr.choice(cand[len(cand) // 2:]) if rr.random() < .7 else rr.choice(cand)
+        style = msgs[i0].get("style", "async")
+        name = "plugins.mod%d:late_%s" % (t, style)
+        mine = [i0] + [i for i in cand if i > i0 and msgs[i].get("style", "async") == style and rr.random() < .5]
+        when = rr.choice(["pre", "post", "at", "at", "at", "at"])
+        at_us = None
+        if when == "at":
+            hi = msgs[i0]["at"] - 1
+            if hi < 0:
+                when = "post"
+            else:
+                # right after an earlier arrival, or as late as possible
+                earlier = [m["at"] for m in msgs[:i0] if m["at"] <= hi]
+                k = rr.random()
+                if earlier and k < .6:
+                    at_us = min(hi, rr.choice(earlier) + rr.choice([0, 0, 1, 50_000, POLL, US]))
+                elif k < .85:
+                    at_us = hi
+                else:
+                    at_us = rr.randrange(0, hi + 1)
+        for i in mine:
+            msgs[i]["task"] = name
+        late.append(dict(name=name, style=style, where=where, when=when, at_us=at_us))
+    if late:
+        sc["late"] = late
+        sc["shared_default"] = rr.choice(["before", "before", "after", None])
+    return sc
+
+
+# --------------------------------------------------------------------------------------------- the worker's life cycle: run_receiver_task
+LIVE_EXC = ["connection", "connection", "runtime", "timeout", "os", "eof", "custom", "falsy", "group", "broker"]
+
+
+def gen_live(r, prof):
+    """Scenario family (own random stream, the caller passes its own generator): the REAL taskiq.api.run_receiver_task coroutine
+    runs for the whole scenario on the virtual loop, over the scripted broker whose listen() raises - a dropped connection - at
+    scripted points; run_receiver_task then builds / starts its receiver again and the remaining messages are served to that one.
+      sc["live"] = dict(kw = run_receiver_task's keyword arguments, faults = [dict(k, at_us, exc, hold)])
+        fault   listen() raises LISTEN_FAULTS[exc] when it is asked for message k (k = number of messages served so far; several
+                faults may have one k: the re-started listen() fails again at once), not before the virtual instant at_us (None:
+                at once, i.e. right after message k-1 was taken, or as the first thing a session does); hold: not before every
+                message taken so far has been started (nothing sits in the failing session's hand-over queue)
+        N, wait_tasks_timeout: run_receiver_task has no such parameter; the receiver class handed to it sets them (what
+                functools.partial(Receiver, max_tasks_to_execute=N) does).  A stop request sets the finish event
+                run_receiver_task gave to listen().
+    Every listen() call is one *session*; the LTS models one session, so these runs are decided by the direct oracles only."""
+    base = gen_base(r, dict(prof, cli_p=0))
+    sc = decorate(base, dict(prof, api_p=0))
+    msgs = sc["msgs"]
+    n0 = sum(1 for m in msgs if not m.get("probe"))
+    last_at = msgs[n0 - 1]["at"] if n0 else 0
+    # upper bound on the time all the work of the scenario takes (the horizon was computed from it)
+    work = sc["horizon_us"] - last_at - (sc["stop_us"] or 0) - (sc["wtt_us"] or 0)
+    faults, extra = [], 0
+    for _ in range(r.choice([0, 1, 1, 1, 1, 2, 2, 3])):
+        k = r.randint(0, n0)
+        if r.random() < .25:
+            k = r.choice([0, n0])
+        elif prof.get("live_early") and r.random() < prof["live_early"]:
+            # the connection drops while the first tasks are running and most of the backlog is still in the broker
+            k = r.randint(1, min(n0, (sc["A"] or 3) + sc["P"] + 2))
+        prev_at = msgs[k - 1]["at"] if k else 0
+        mode = r.choice(["after-take", "after-take", "arrival", "mid", "idle", "idle"])
+        if mode == "after-take":
+            at = None
+        elif mode == "arrival":
+            at = msgs[k]["at"] if k < n0 else prev_at + r.choice([0, 1, POLL, US])
+        elif mode == "mid":
+            at = prev_at + r.choice([1, 50_000, POLL, US])
+        else:
+            # everything taken so far has finished (unless it never ends): the worker is idle
+            at = prev_at + sum(max(m["dur"], 0) + m.get("cleanup_us", 0) for m in msgs[:k]) + r.choice([POLL, US, 2 * US])
+        f = dict(k=k, at_us=at, exc=r.choice(LIVE_EXC), hold=r.random() < .6, mode=mode)
+        if at is not None:
+            extra += max(0, at - (msgs[k]["at"] if k < n0 else prev_at))
+        if f["hold"]:
+            extra += work
+        faults.append(f)
+    faults.sort(key=lambda f: (f["k"], -1 if f["at_us"] is None else f["at_us"]))
+    kw = api_kwargs(sc, r)
+    kw.pop("use_process_pool", None)        # the task functions are closures of the driver: a thread pool runs the sync ones
+    if r.random() < .5:
+        kw.pop("run_startup", None)
+    elif r.random() < .5:
+        kw["run_startup"] = True
+    sc["live"] = dict(kw=kw, faults=faults)
+    if extra:
+        sc["horizon_us"] += extra
+        if "probe_at" in sc:
+            sc["probe_at"] += extra
+            for m in msgs:
+                if m.get("probe"):
+                    m["at"] += extra
+    return sc
+
+
+def is_live(sc):
+    return sc.get("live") is not None
+
+
 def mw_pre_fails(m):
     """a pre_execute hook of one of the extra middlewares fails: the message never reaches its task function (C10's business)"""
     return any(d.get("pre", {}).get("fail") for d in m.get("mw") or [])
@@ -385,6 +523,20 @@ def count_inputs(rep, sc):
             rep.count("config:api-use_process_pool")
     if sc.get("stop_on"):
         rep.count("stop-relative-to-event:%s" % sc["stop_on"]["tag"])
+    for t in sc.get("late") or []:
+        rep.count("registration:%s/%s" % (t["where"], t["when"] if t["when"] != "at" else "while-listening"))
+    if sc.get("late"):
+        rep.count("registration:scenario-with-late-or-shared-task")
+        rep.count("registration:shared-broker-default=%s" % sc.get("shared_default"))
+    if is_live(sc):
+        fl = sc["live"]["faults"]
+        rep.count("live:run_receiver_task-runs-for-the-whole-scenario")
+        rep.count("live:listen-faults-scripted=%d" % len(fl))
+        for f in fl:
+            rep.count("live:fault-point=%s%s" % (f.get("mode", "?"), "/held-until-queue-empty" if f.get("hold") else ""))
+            rep.count("live:fault-exception=" + f["exc"])
+        rep.count("live:trigger=" + ("stop" if sc.get("stop_us") is not None or sc.get("stop_on") else "-") + ("+N" if sc["N"] else "")
+                  + ("+end" if sc.get("ends") else "") + ("+probe" if "probe_at" in sc else ""))
     if sc.get("mws"):
         rep.count("middlewares:%d-extra" % len(sc["mws"]))
         for mw in sc["mws"]:
@@ -402,7 +554,7 @@ def count_inputs(rep, sc):
 
 
 def gen_scenario(r, prof):
-    """prof: dict(limited_only, backlog, never, stop_p, n_p, ends_p, probe, faults, wtt_p, slowcancel, abort_p, equal_p, A_choices, P_choices, aw_p, outage_p,
+    """prof: dict(limited_only, backlog, backlog_extra, never, stop_p, n_p, ends_p, probe, faults, wtt_p, slowcancel, abort_p, equal_p, A_choices, P_choices, aw_p, outage_p,
     wire_p, mw_p, cfg_p, api_p)"""
     return decorate(gen_base(r, prof), prof)
 
@@ -414,7 +566,8 @@ def gen_base(r, prof):
     N = r.choice([1, 2, 2, 3, 4, 5, 6]) if r.random() < prof.get("n_p", .25) else None
     wtt = r.choice([0, 500_000, 2 * US, 3 * US]) if r.random() < prof.get("wtt_p", .3) else None
     if prof.get("backlog"):
-        n = r.randint(a_eff + P + 3, a_eff + P + 8)
+        x = prof.get("backlog_extra", 0)        # (opt-in: a longer backlog; the draw itself is the same)
+        n = r.randint(a_eff + P + 3 + x, a_eff + P + 8 + x)
     else:
         n = r.randint(1, 12)
     burst = prof.get("backlog") or r.random() < .4
@@ -607,6 +760,20 @@ class Facts:
         self.save, self.saveend = times("save"), times("save.end")     # set_result entered / the attempt has completed
         N = sc["N"]
         self.budget_t = self.takes[N - 1][0] if N and len(self.takes) >= N else None
+        # run_receiver_task life cycle (sc["live"]): every call of the broker's listen() is one session
+        self.live = is_live(sc)
+        self.sess = {e[2]: (e[3] or 0) for e in raw if e[1] == "TAKE"}            # message -> session that took it
+        self.faults = [(e[0], e[2], e[3]) for e in raw if e[1] == "FAULT"]        # (instant, session, exception name)
+        self.failed = {s for _, s, _ in self.faults}
+        self.sess_start = {e[2]: e[0] for e in raw if e[1] == "SESSION"}           # session -> instant Receiver.listen was called
+        self.last_s = max(list(self.sess_start) + [0])
+        handed = {e[2] for e in raw if e[1] == "q.get"}
+        # taken by a session whose listen() then failed while the message was still in that session's hand-over queue (the
+        # runner of that session never took it out): dropped together with the session
+        self.dropped = {i for i, s in self.sess.items() if s in self.failed and i not in handed}
+        if self.live:
+            mine = [t for t, i in self.takes if self.sess[i] == self.last_s]
+            self.budget_t = mine[N - 1] if N and len(mine) >= N else None
         cands = [x for x in (self.stop_t, self.budget_t, self.brk_end_t) if x is not None]
         self.t0 = min(cands) if cands else None      # instant at which shutdown was triggered
 
@@ -619,6 +786,13 @@ class Facts:
 
     def processing_at_end(self):
         return [i for i in self.cbstart if i not in self.cbend]
+
+    def session_of(self, i):
+        """the session message i belongs to: the one that took it; a message never taken would be the last session's"""
+        return self.sess.get(i, self.last_s)
+
+    def final(self, i):
+        return self.session_of(i) == self.last_s
 
 
 # --------------------------------------------------------------------------------------------- Coq side
@@ -683,6 +857,10 @@ def acceptance(ctx, rep, label, scs, obss, check):
     for k, (sc, o) in enumerate(zip(scs, obss)):
         if "_crash" in o:
             continue
+        if is_live(sc):
+            # several listen() sessions, some ended by an exception: the LTS models one session - direct oracles only
+            count_live(rep, sc, o)
+            continue
         if any(e.startswith("EBad") for e in o["lts"]):
             pre_bad.append(k)       # raw log has a shape no model step produces
             continue
@@ -693,6 +871,8 @@ def acceptance(ctx, rep, label, scs, obss, check):
         bad, fails, _ = C.coq_eval(ctx, label, COQ_HEADER, lits, coq_body(check), shard=150)
     badk = sorted(pre_bad + [keep[i] for i in bad])
     allk = sorted(keep + pre_bad)
+    if not allk and any(is_live(sc) for sc in scs):
+        return [], []
     rep.corr(label, len(allk), badk, fails, lambda k: dict(case=scs[k], lts=obss[k]["lts"][:400]))
     badset = set(badk)
     for k in keep:
@@ -702,6 +882,39 @@ def acceptance(ctx, rep, label, scs, obss, check):
                       "config:via-run_receiver_task" if scs[k].get("api") is not None else "config:direct")
     rep.traces += len(keep) - len(bad)
     return badk, fails
+
+
+def count_live(rep, sc, o):
+    """evidence: what really happened in a run under run_receiver_task (from the raw log)"""
+    f = Facts(sc, o)
+    rep.count("live:listen-faults-happened=%d" % len(f.faults))
+    rep.count("live:sessions=%d" % (f.last_s + 1))
+    for t, s, name in f.faults:
+        if s + 1 not in f.sess_start:
+            rep.count("live:fault-not-noticed-by-the-worker-within-the-run")
+            continue
+        t = f.sess_start[s + 1]         # the instant the worker noticed (the prefetcher may be waiting for a permit meanwhile)
+        busy = [i for i in f.cbstart if f.cbstart[i][0] <= t and not (f.cbdone.get(i) and f.cbdone[i][0] <= t)]
+        rep.count("live:fault-while-%s" % ("tasks-in-flight" if busy else "idle"))
+        if busy and any(f.cbdone.get(i) and f.cbdone[i][0] > t for i in busy):
+            rep.count("live:task-of-a-failed-session-finished-during-a-later-session")
+    if f.dropped:
+        rep.count("live:scenario-with-message-dropped-with-the-failed-session's-queue")
+    if any(f.sess.get(i, 0) > 0 for i in f.bodyin):
+        rep.count("live:message-executed-by-a-replacement-session")
+    # the reading of the statements that the oracles do NOT demand (whole process instead of one listening session)
+    A = sc["A"] if limited(sc) else None
+    if A is not None:
+        cur, peak = set(), 0
+        for e in f.raw:
+            if e[1] == "cb.start":
+                cur.add(e[2])
+            elif e[1] == "cb.end":
+                cur.discard(e[2])
+            peak = max(peak, len(cur))
+        if peak > A:
+            rep.count("live:callbacks-of-old-and-new-session-together-exceed-A(not-demanded)")
+    rep.count("live:" + ("returned" if o["returned"] else "cut"))
 
 
 def replay_print(ctx, path, oracle, check):
@@ -722,7 +935,8 @@ def replay_print(ctx, path, oracle, check):
     for e in shown[:300]:
         print("  %10d %s %s%s" % (e[0], e[1], "" if e[2] is None else e[2],
                                    " (the callback task ended CANCELLED)" if e[1] == "cb.done" and e[3] == "cancelled" else
-                                   " (%s)" % e[3] if e[1] in ("ack", "hook.aw", "hook.aw.end", "hook.begin", "hook.end") and e[3] else
+                                   " (%s)" % e[3] if e[1] in ("ack", "hook.aw", "hook.aw.end", "hook.begin", "hook.end", "FAULT", "REG", "WORKER.END") and e[3] else
+                                   " (taken by listen() session %d)" % e[3] if e[1] == "TAKE" and e[3] is not None else
                                    " (a task was created while this message's callback task was running)" if e[1] == "bg.new" else ""))
     print("  (%d raw events, idle polling omitted)" % len(raw))
     lts = obs["lts"]
@@ -730,6 +944,11 @@ def replay_print(ctx, path, oracle, check):
     fails = oracle(sc, obs)
     for f in fails:
         print("ORACLE:", f["what"], "| observed:", f.get("observed"), "| expected:", f.get("expected"))
+    if is_live(sc):
+        print("model: not applicable - run_receiver_task ran for real over %d listen() sessions (the LTS models one session); "
+              "direct oracles only" % (1 + max([e[2] for e in raw if e[1] == "SESSION"] + [0])))
+        print("holds" if not fails else "VIOLATED")
+        return 0 if not fails else 1
     if any(e.startswith("EBad") for e in lts):
         print("model: the raw log contains step shapes no model transition produces (EBad markers above)")
         print("holds" if not fails else "VIOLATED")
